@@ -272,7 +272,17 @@ impl Reader {
 		loop {
 			// When < HEADER_SIZE bytes remain, discard them (padding) and read next block
 			if self.buffer_remaining() < WAL_RECORD_HEADER_SIZE {
+				let leftover = self.buffer_remaining();
 				if !self.read_more()? {
+					// A partial header or an unfinished fragment chain at the end of the
+					// file is a torn write, not a clean end: report it so that the segment
+					// is repaired before anything is appended behind it.
+					if leftover > 0 || fragment_index > 0 {
+						return Err(Error::IO(IOError::new(
+							io::ErrorKind::Other,
+							"truncated record at end of file",
+						)));
+					}
 					return Err(Error::IO(IOError::new(
 						io::ErrorKind::UnexpectedEof,
 						"reached end of file",
